@@ -14,7 +14,7 @@ OPS = ['<', '<=', '==', '!=', '>', '>=']
 def pyop(op, a, b):
     return {'<': a < b, '<=': a <= b, '==': a == b, '!=': a != b, '>': a > b, '>=': a >= b}[op]
 
-BUILDS = ['raw', 'int_resize_raw', 'int_resize_equal', 'like_int', 'u64list_raw', 'raw_rejected_write', 'int_resize_nint_raw']
+BUILDS = ['raw', 'int_resize_raw', 'int_resize_equal', 'like_int', 'u64list_raw', 'raw_rejected_write', 'int_resize_nint_raw', 'raw_vdtype_npint']
 def build(fx, np, s, nw, nf, codes, shape=None, how='raw'):
     """an object holding the given raw codes, reached through different histories (the hidden value type differs: an object built
     from integers keeps an integer value type until a write resets it)"""
@@ -26,6 +26,12 @@ def build(fx, np, s, nw, nf, codes, shape=None, how='raw'):
             if shape is None: x.set_val(2, index=1)
             else: x[int(np.prod(shape))] = 1
         except (IndexError, ValueError, TypeError): pass
+        return x
+    if how == 'raw_vdtype_npint':
+        # a raw write that DECLARES an integer value type through the vdtype keyword, spelled as a NumPy integer type / dtype / 'int':
+        # the format decides whether the readings are integers (n_frac <= 0) or not
+        x = fx.Fxp(None, s, nw, nf)
+        x.set_val(codes if shape is None else np.array(codes).reshape(shape), raw=True, vdtype=[np.int32, np.uint8, np.int64, np.dtype('int16'), int][(nw + len(str(codes))) % 5])
         return x
     if how == 'u64list_raw':
         # built from a LIST of NumPy uint64 scalars (the value type is then the dtype instance uint64, not a Python type), then written raw
